@@ -15,7 +15,10 @@ MODULE = "BlackIt.Properties.C12"
 PROP_FILE = LEAN / "BlackIt/Properties/C12.lean"
 
 
-def make_sampler(script, batch_size, passes):
+_REUSED = {}      # one long-lived sampler object, called again and again with unrelated histories (often of the same shape)
+
+
+def make_sampler(script, batch_size, passes, reuse=False):
     from black_it.samplers.base import BaseSampler
 
     class Scripted(BaseSampler):
@@ -23,6 +26,10 @@ def make_sampler(script, batch_size, passes):
 
         def __init__(self):
             super().__init__(batch_size=batch_size, max_deduplication_passes=passes)
+            self.load(script, batch_size, passes)
+
+        def load(self, script_, batch_size_, passes_):
+            self.script_, self.batch_size, self.max_deduplication_passes = script_, batch_size_, passes_
             self.requests, self.snapshots, self.first = [], [], None
 
         def sample_batch(self, batch_size, search_space, existing_points, existing_losses):
@@ -30,12 +37,18 @@ def make_sampler(script, batch_size, passes):
             self.requests.append(int(batch_size))
             if self.first is not None:
                 self.snapshots.append(self.first.copy())  # the batch as it is when pass k starts
-            out = np.array(script[k][:batch_size], dtype=float).reshape(-1, len(script[0][0]))
+            out = np.array(self.script_[k][:batch_size], dtype=float).reshape(-1, len(self.script_[0][0]))
             if self.first is None:
                 self.first = out
             return out
 
-    return Scripted()
+    if reuse and "obj" in _REUSED:
+        _REUSED["obj"].load(script, batch_size, passes)
+        return _REUSED["obj"]
+    smp = Scripted()
+    if reuse:
+        _REUSED["obj"] = smp
+    return smp
 
 
 def rows_s(a) -> str:
@@ -138,8 +151,8 @@ def oracle(b, passes, existing, script, out, smp, warned) -> list[str]:
     return errs
 
 
-def run_real(b, passes, dims, existing, script):
-    smp = make_sampler(script, b, passes)
+def run_real(b, passes, dims, existing, script, reuse=False):
+    smp = make_sampler(script, b, passes, reuse=reuse)
     ex = np.array(existing, dtype=float).reshape(-1, dims)
     ex0 = ex.copy()
     buf = io.StringIO()
@@ -181,8 +194,11 @@ def run(chk: Check):
     answers = lean_run(reqs)
 
     for (dims, b, passes, existing, script), ans in zip(cases, answers):
+        reuse = (len(existing) + dims + b) % 2 == 0      # about half of the cases go through one long-lived sampler object
+        chk.count("sampler_object:" + ("reused" if reuse else "fresh"))
         try:
-            smp, out, warned, hist_ok = run_real(b, passes, dims, existing, script)
+            smp, out, warned, hist_ok = run_real(b, passes, dims, existing, script, reuse=reuse)
+            smp = type("Rec", (), {"requests": list(smp.requests), "snapshots": list(smp.snapshots)})()
         except Exception as e:  # noqa: BLE001  (an exception of the code under test is an outcome, not a harness error)
             chk.case([dims, b, passes, existing, script], True, {"batch_size": b, "passes": passes, "raised": type(e).__name__})
             chk.fail(f"sample() raised {type(e).__name__}: {str(e)[:120]} on a scripted draw sequence",
